@@ -1,6 +1,6 @@
 (** C09 — pacing: debt-driven calls pay their debt; sleep is honoured (over exact rationals). *)
 From Coq Require Import QArith.
-From GA Require Import Model.Spec Proofs.Inv Proofs.MetricsLemmas Proofs.Pacing Proofs.Protocol Proofs.MInv Proofs.Credit Proofs.CreditWorld.
+From GA Require Import Model.Spec Proofs.Inv Proofs.MetricsLemmas Proofs.Pacing Proofs.Protocol Proofs.MInv Proofs.Credit Proofs.CreditWorld Proofs.CycleFrame Proofs.CycleBound.
 
 (** collect_debt that completes returns with zero allocation debt *)
 Theorem C09_collect_zero :
@@ -95,12 +95,33 @@ Theorem C09_progress_bound :
 Proof. exact progress_bound. Qed.
 Print Assumptions C09_progress_bound.
 
+(** ... and without bookkeeping hypotheses: [in_cycle c0 c] relates the states of one cycle (every mutator
+    micro-op, every collector step that does not roll the cycle over, anything that leaves the metrics
+    alone); along it [total + freed - allocated] and [debits - allocated] are constant
+    ([in_cycle_cyc]).  So for a cycle that started in [c0] with nothing released yet, H = total objects,
+    debits d0: in any later state of the cycle in which the debt is paid, with A allocations since,
+    A (1 - rho) <= rho H - d0. *)
+Theorem C09_progress_bound_cycle :
+  forall c0 c rho,
+    freed (met c0) = 0%N -> in_cycle c0 c ->
+    Inv None c -> MInv c -> CInv c -> paths_ok (pac (met c)) rho ->
+    debt_pos (met c) = false -> total (met c) <> 0%N ->
+    let H := QofN (total (met c0)) in
+    let A := (QofN (Metrics.allocated (met c)) - QofN (Metrics.allocated (met c0)))%Q in
+    let d0 := cycle_debits (met c0) in
+    (A * (1 - rho) <= rho * H - d0)%Q.
+Proof. exact progress_bound_cycle. Qed.
+Print Assumptions C09_progress_bound_cycle.
+
+Theorem C09_cycle_bookkeeping :
+  forall c0 c, in_cycle c0 c -> cyc_step (met c0) (met c).
+Proof. exact in_cycle_cyc. Qed.
+Print Assumptions C09_cycle_bookkeeping.
+
 (** non-vacuity: the default pacing satisfies the path condition with rho = 0.55 *)
 Example C09_default_pacing_paths : paths_ok pacing_default (55#100).
 Proof. unfold paths_ok, pacing_default. cbn. repeat split; unfold Qle; cbn; lia. Qed.
 
 (** What stays outside: f64 rounding (the lock-step run compares decisions, and values on dyadic
-    pacing); the bookkeeping identities "objects seen = H + A" and "debits = d0 + A" of a cycle are
-    hypotheses of [C09_progress_bound] (they follow from total + freed - allocated and
-    debits - allocated being constant within a cycle; the credit-bound oracle evaluates them on the
-    implementation's counters). *)
+    pacing; the credit-bound and counting oracles evaluate the invariant on the implementation's
+    counters). *)
